@@ -308,7 +308,12 @@ func (c *DnsController) RestoreReloadCache(entries map[string]*DnsCache, matchDo
 		v.routeLive = c.dnsCacheEntryLive(k, v)
 		c.dnsCache.Store(k, v)
 		c.rememberDnsKnowledge(dnsCacheBaseKey(k), v.OriginalDeadline)
-		c.triggerBpfUpdateIfNeeded(v, now)
+		// The replay is a burst as large as the cache and its entries may never be
+		// looked up again: apply the routing update here instead of handing it to the
+		// bounded asynchronous queue, which drops what does not fit.
+		if rt := c.runtime(); rt != nil && rt.cacheAccessCallback != nil && !c.bpfUpdateClosed.Load() && v.NeedsBpfUpdate(now) {
+			c.processBpfUpdateTask(&bpfUpdateTask{cache: v, now: now}, false)
+		}
 		count++
 	}
 	return count
